@@ -225,11 +225,24 @@ def run_suite(res, cases, name, per=200):
     if not b["ok"]:
         res.broken.append(dict(kind="proof", name=b["failed"], detail=b["log"][-2000:]))
         return []
-    shards = ["Definition RE := %s.\nDefinition DD : decls := %s.\nDefinition SIGS : nat -> option fsig := %s.\n%s\n"
-              "Definition cases : list fcase := [\n%s\n].\n"
-              "Goal True. idtac \"MISMATCH\". exact I. Qed.\nEval vm_compute in (bad_idx case_ok cases).\n"
-              "Goal True. idtac \"SKIPS\". exact I. Qed.\nEval vm_compute in (count_if case_skip cases).\n"
-              % (table, world.decls_term(), sig_term, PRELUDE, ";\n".join(lines[s:s + per])) for s in range(0, len(lines), per)]
+    import re as _re
+    by_id = {i: t for i, t in sigs.values()}
+
+    def sigs_for(chunk):
+        """only the signatures (and, through them, the classes) a shard's calls use"""
+        ids = sorted({int(_re.match(r"\((\d+)%nat", l).group(1)) for l in chunk})
+        term = "(fun c : nat => match c with\n%s  | _ => None end)" % "".join("  | %d%%nat => Some (%s)\n" % (i, by_id[i]) for i in ids)
+        return term, [by_id[i] for i in ids]
+
+    def shard(chunk):
+        st, sig_texts = sigs_for(chunk)
+        body = [_re.sub(r"^\(\d+%nat", "(", l) for l in chunk]      # (the head of a call line is a signature id, not a class id)
+        return ("Definition RE := %s.\nDefinition DD : decls := %s.\nDefinition SIGS : nat -> option fsig := %s.\n%s\n"
+                "Definition cases : list fcase := [\n%s\n].\n"
+                "Goal True. idtac \"MISMATCH\". exact I. Qed.\nEval vm_compute in (bad_idx case_ok cases).\n"
+                "Goal True. idtac \"SKIPS\". exact I. Qed.\nEval vm_compute in (count_if case_skip cases).\n"
+                % (table, world.decls_term_for(body + sig_texts), st, PRELUDE, ";\n".join(chunk)))
+    shards = [shard(lines[s:s + per]) for s in range(0, len(lines), per)]
     mism, skips = [], 0
     for k, (rc, out) in enumerate(core.run_sharded(name, ["Parse", "Func"], shards)):
         bad = core.parse_nat_list(out, "MISMATCH") if rc == 0 else None
@@ -316,10 +329,19 @@ def declare_ctx(rng, rich=True, bare_static=False):
                     "%s = %s_K().m\n") % (name, raw_plist, name, deco, first, plist, name, name))
         try:
             dyn.declare(src)
-        except Exception:
+        except Exception as e:
+            # is it Python that refuses the signature, or the decorator?  (the undecorated twin alone)
+            try:
+                dyn.declare("def %s_probe(%s):\n    pass\n" % (name, raw_plist))
+                REFUSED.append((src, "%s: %s" % (type(e).__name__, str(e)[:200])))
+            except Exception:
+                pass
             continue
         return name, src, params, aliases
     raise RuntimeError("could not declare")
+
+
+REFUSED = []      # declarations Python accepts and the decorator refused: (source, error)
 
 
 def conv(ann, v):
@@ -660,6 +682,11 @@ def main(tier, seed):
     for c, o in bad[:3]:
         res.violations.append(dict(case=repr(dict(src=c["src"], fn=c["fn"], params=c["params"], aliases=c["aliases"], args=c["args"],
                                                     kwargs=c["kwargs"], kind="bind")), observed=o, what=o))
+    # a signature Python itself accepts must be decoratable: otherwise no call of it gets Python's binding
+    res.cov["suites"]["signature-bind-oracle"]["signatures_refused_by_the_decorator"] = len(REFUSED)
+    for src, err in REFUSED[:2]:
+        res.violations.append(dict(case=repr(dict(src=src, kind="decoration-refused")), observed=err,
+                                   what="the decorator refuses a signature that Python accepts: " + err))
     m = 600 if tier == "quick" else 8000
     routs = core.pool_map(result_oracle, [seed * 100003 + i for i in range(m)])
     rbad = [o for o in routs if isinstance(o, str)]
